@@ -7,3 +7,6 @@ import NTV.Proofs.C04
 #print axioms NTV.C04.smart_const_right
 #print axioms NTV.C04.smart_const_left
 #print axioms NTV.C04.smart_is_sylvester_partial
+#print axioms NTV.C04.smart_flag
+#print axioms NTV.C04.smart_is_sylvester
+#print axioms NTV.C04.smart_value_is_sylvester
